@@ -380,3 +380,78 @@ def _reach(cfg, a, b, avoid):
             if s is not None:
                 st.append(s)
     return False
+
+
+def run_cover(prog, rep):
+    """Element loops of the predicate functors examine every element: an early exit (break / return
+    inside the loop) is allowed only once the verdict is known to fail, or for the tabled reason
+    'descriptor index beyond the data rank' (that breach is reported by the rank rule)."""
+    sem = Sem(prog)
+    rule = rep.rule('R-VALID-COVER', 'predicate loops leave early only on a failed verdict (or for a descriptor beyond the data rank)', floor=3)
+    n = 0
+    for f in sorted(prog.funcs.values(), key=lambda f: (f.file, f.line)):
+        if not f.q.startswith('nix::valid::') or f.name != 'operator()' or f.body is None or f.cfg is None:
+            continue
+        loops = [x for x in f.body.walk() if x.k in ('for', 'while', 'rangefor', 'do')]
+        if not loops:
+            continue
+        bools = {v.get('lid'): v.get('name') for v in f.body.walk() if v.k == 'var' and (v.get('type') or '').replace('const ', '') == 'bool'}
+        # which value of a verdict variable means 'check failed' (from how it is returned)
+        failing = {}
+        for r in [x for x in f.body.walk() if x.k == 'return' and x.c and x.c[0] is not None]:
+            t = term(r.c[0])
+            if t[0] == 'v' and t[1] in bools:
+                failing[t[1]] = False
+            elif t[0] == 'u' and t[1] == '!' and t[2][0] == 'v' and t[2][1] in bools:
+                failing[t[2][1]] = True
+        for lp in loops:
+            body = lp.c[-1] if lp.k != 'do' else lp.c[0]
+            exits = []
+            for x in body.walk():
+                if x.k in ('break', 'return'):
+                    # a break that belongs to an inner loop/switch of this loop is not an exit of this loop
+                    owner = None
+                    for anc in x.ancestors():
+                        if anc.k in ('for', 'while', 'rangefor', 'do', 'switch'):
+                            owner = anc
+                            break
+                    if x.k == 'break' and owner is not lp:
+                        continue
+                    exits.append(x)
+            n += 1
+            for x in exits:
+                facts = sem.facts_at(f, x.id)
+                guarded_by_verdict = any(t[0] == 'v' and t[1] in failing and pol is failing[t[1]] for (t, pol) in facts)
+                beyond_rank = any(t[0] == 'b' and t[1] in ('>=', '>') and pol and 'dataExtent' in repr(t[3]) and "'size'" in repr(t[3]) for (t, pol) in facts)
+                returns_fail = x.k == 'return' and x.c and x.c[0] is not None and term(x.c[0]) == ('k', False)
+                rule.check(guarded_by_verdict or beyond_rank or returns_fail, '%s|exit@%s' % (f.q, _cond_shape(facts)), rep.where(x), f.label(),
+                           'early exit only on a failed verdict / descriptor beyond the rank',
+                           'the element loop is left early (line %d) under %s although the verdict has not failed: the remaining elements are never examined' % (
+                               x.l, [(_short_t(t), pol) for (t, pol) in facts][-2:]))
+            if not exits:
+                rule.ok('%s|loop@%d|no-early-exit' % (f.q, loops.index(lp)), rep.where(lp), f.label(), 'loop has no early exit', nontrivial=False)
+    if n < 3:
+        raise AnalysisBroken('R-VALID-COVER: only %d predicate loops found' % n)
+    return rule
+
+
+def _mentions_any(t, lids):
+    if isinstance(t, tuple):
+        if len(t) >= 2 and t[0] == 'v' and t[1] in lids:
+            return True
+        return any(_mentions_any(x, lids) for x in t)
+    return False
+
+
+def _short_t(t):
+    return repr(t).replace('nix::', '')[:100]
+
+
+def _cond_shape(facts):
+    """a stable (name-free) key for an exit: the operators/callees of its innermost guard"""
+    import re as _re
+    if not facts:
+        return 'unguarded'
+    s = sorted(repr(t) for (t, pol) in facts)[-1]
+    names = _re.findall(r"'([A-Za-z_:<>=!]+)'", s)
+    return '-'.join(x for x in names if x not in ('v', 'm', 'b', 'c', 'k', 'op', 'u', 'e', 'f', 'mem', 'this'))[:60] or 'cond'
